@@ -2,7 +2,7 @@
 import re
 
 from analysis import (membership_test, mirror, Prov, Guards, fmt, fmt_short, walk, roots, short, comparison, find_calls, callee_matches,
-                      must_pass, const_int_of, normalised_cmp)
+                      must_pass, const_int_of, normalised_cmp, canon, field_writes)
 from facts import AnchorError, strip_closure
 from harness import Rule, guarded
 from c01 import bool_pass_edges
@@ -430,6 +430,89 @@ def r4(ctx):
     return rule
 
 
+def r5(ctx):
+    """'the configured burst plus rate times the window': each limiter is built from the quota configured for it, and a quota becomes
+    (tau, t) = (replenish_all_every, replenish_all_every / max_tokens)"""
+    facts = ctx.facts
+    rule = Rule("C18.R5", "each limiter is built from its own configured quota (total / per node / per ip) and a quota becomes tau = period, t = period / tokens",
+                floor=11, engine="A-prov + ADT field writers")
+    RL = "crate::socket::filter::rate_limiter::"
+    b = facts.one(re.escape(RL + "RateLimiterBuilder::build"))
+    rule.analysed(b)
+    p = Prov(b, facts)
+    built = None
+    for x in roots(p.local(0)):
+        if x[0] == "agg" and x[1].endswith("Result::Ok"):
+            for y in roots(dict(x[2])["0"]):
+                if y[0] == "agg" and y[1].endswith("RateLimiter::RateLimiter"):
+                    built = dict(y[2])
+    if built is None:
+        raise AnchorError("RateLimiterBuilder::build: the RateLimiter it returns was not found")
+    quotas = ("total_quota", "node_quota", "ip_quota")
+    sn = b.local_name(1) or "self"
+    for fld, q in (("total_rl", "total_quota"), ("node_rl", "node_quota"), ("ip_rl", "ip_quota")):
+        text = fmt(canon(built.get(fld, ("unknown", ""))), -60)
+        used = [x for x in quotas if re.search(r"\b%s\.%s\b" % (re.escape(sn), x), text)]
+        rule.check(used == [q] and "from_quota" in text, "build: %s = Limiter::from_quota(self.%s)" % (fld, q), "build|%s" % fld,
+                   "RateLimiterBuilder::build makes %s from %s: that limiter enforces another quota than the one configured for it"
+                   % (fld, ", ".join("self." + u for u in used) or "no configured quota"), loc=b.loc(b.line))
+    # the builder's setters store the quota they are given in their own field; nothing else writes the fields
+    for q in quotas:
+        ws = field_writes(facts, re.escape(RL + "RateLimiterBuilder"), q)
+        ok = True
+        detail = []
+        for wb, wbi, wline, kind, e in ws:
+            if kind == "construct":
+                ok = ok and (wb.path.endswith("Default>::default") or all(x[0] == "agg" and x[1].endswith("Option::None") for x in roots(e)))
+                continue
+            okw = wb.path == RL + "RateLimiterBuilder::" + q and all(x[0] == "agg" and x[1].endswith("Option::Some") and dict(x[2])["0"] == ("param", 2, wb.local_name(2)) for x in roots(e))
+            if not okw:
+                detail.append("%s stores %s" % (wb.path.split("::")[-1], fmt_short(e)[:80]))
+            ok = ok and okw
+        rule.check(ok and any(k == "assign" for _, _, _, k, _ in ws), "RateLimiterBuilder::%s is set only by its setter, to the quota given" % q, "builder|%s" % q,
+                   "RateLimiterBuilder::%s is written elsewhere or with another value (%s)" % (q, "; ".join(detail)), loc=None)
+        nb = facts.one(re.escape(RL + "RateLimiterBuilder::" + q.replace("_quota", "_n_every")))
+        rule.analysed(nb)
+        e = canon(Prov(nb, facts).local(0))
+        okn = e[0] == "call" and e[1] == RL + "RateLimiterBuilder::" + q and len(e[2]) == 2 and e[2][1][0] == "agg" and \
+            fmt_short(dict(e[2][1][2]).get("max_tokens", ("unknown", ""))) == (nb.local_name(2) or "n") and \
+            fmt_short(dict(e[2][1][2]).get("replenish_all_every", ("unknown", ""))) == (nb.local_name(3) or "time_period")
+        rule.check(okn, "%s(n, period) = %s(Quota{period, n})" % (q.replace("_quota", "_n_every"), q), "builder|%s|n_every" % q,
+                   "RateLimiterBuilder::%s builds %s" % (q.replace("_quota", "_n_every"), fmt_short(e)[:160]), loc=nb.loc(nb.line))
+    # a quota becomes (tau, t)
+    fq = facts.one(re.escape(RL + "Limiter::<Key>::from_quota"))
+    rule.analysed(fq)
+    fp = Prov(fq, facts)
+    lim = None
+    for x in roots(fp.local(0)):
+        if x[0] == "agg" and x[1].endswith("Result::Ok"):
+            for y in roots(dict(x[2])["0"]):
+                if y[0] == "agg" and y[1].endswith("Limiter::Limiter"):
+                    lim = dict(y[2])
+    if lim is None:
+        raise AnchorError("Limiter::from_quota: the Limiter it returns was not found")
+    qn = fq.local_name(1) or "quota"
+
+    def arith(e):
+        """the arithmetic core of a converted value: drops try_into / map_err / `?` wrappers"""
+        e = canon(e)
+        while True:
+            if e[0] == "field" and e[1][0] == "as":
+                e = canon(e[1][1])
+            elif e[0] == "call" and re.search(r"Try>?::branch$|Result::map_err$|TryInto>?::try_into$|TryFrom>?::try_from$|From>?::from$|Into>?::into$", short(e[1])) and e[2]:
+                e = canon(e[2][0])
+            else:
+                return e
+    tau, t = arith(lim.get("tau", ("unknown", ""))), arith(lim.get("t", ("unknown", "")))
+    per = "Duration::as_nanos(%s.replenish_all_every)" % qn
+    rule.check(fmt_short(tau) == per, "from_quota: tau = replenish_all_every (the burst a fresh key may use at once)", "from_quota|tau",
+               "Limiter::from_quota sets tau = %s" % fmt_short(tau)[:160], loc=fq.loc(fq.line))
+    okt = t[0] == "bin" and t[1] == "Div" and fmt_short(t[2]) == per and fmt_short(t[3]).replace(" as u128", "").strip("()") == "%s.max_tokens" % qn
+    rule.check(okt, "from_quota: t = replenish_all_every / max_tokens (the time one token takes to come back)", "from_quota|t",
+               "Limiter::from_quota sets t = %s" % fmt_short(t)[:160], loc=fq.loc(fq.line))
+    return rule
+
+
 def run(ctx):
     G = lambda l, f, *a: guarded("C18." + l, f, ctx, *a)
-    return G("R1", r1) + G("R2", r2) + G("R3", r3) + G("R4", r4)
+    return G("R1", r1) + G("R2", r2) + G("R3", r3) + G("R4", r4) + G("R5", r5)
